@@ -134,7 +134,7 @@ def cases(draw, mode=0):
     for i in range(n):
         kind = draw(st.sampled_from(["bit", "bv", "u", "s", "u", "s"]))
         w = 1 if kind == "bit" else draw(st.sampled_from([2, 3, 4, 4, 5, 8, 8]))
-        ctx = draw(st.sampled_from(["conc", "seq"]))
+        ctx = draw(st.sampled_from(["conc", "conc", "seq", "seq", "comb"]))
         shape = draw(st.sampled_from(["assign", "assign", "if", "selw", "widen", "local", "arr", "enum", "sub"] if kind != "bit"
                                      else ["assign", "if", "selw", "local"]))
         depth = draw(st.integers(1, 3 if mode < 2 else 2))
@@ -158,7 +158,7 @@ def cases(draw, mode=0):
                 o["e"] = draw(expr("u", nw, depth))
                 o["from"] = ["u", nw]
         elif shape == "local":
-            o["lq"] = draw(st.sampled_from(["Signal", "Variable"])) if ctx == "seq" else "Signal"
+            o["lq"] = draw(st.sampled_from(["Signal", "Variable"])) if ctx != "conc" else "Signal"
         elif shape == "arr":
             o["ix"] = draw(st.one_of(st.integers(0, 3).map(lambda v: ["lit", v]), expr("u", 2, 1)))
             o["ix2"] = draw(st.one_of(st.integers(0, 3).map(lambda v: ["lit", v]), expr("u", 2, 1)))
@@ -291,8 +291,9 @@ def render(case):
     pre = []
     conc = []
     seq = []
+    comb = []
     for i, o in enumerate(outs):
-        body = conc if o["ctx"] == "conc" else seq
+        body = conc if o["ctx"] == "conc" else seq if o["ctx"] == "seq" else comb
         tgt = f"self.o{i}"
         shape = o["st"]
         e = rx(o["e"])
@@ -300,7 +301,7 @@ def render(case):
         if shape in ("assign", "widen"):
             body.append(f"{tgt} <<= {e}")
         elif shape == "if":
-            if o["ctx"] == "seq":
+            if o["ctx"] != "conc":
                 body += [f"if {rx(o['c'])}:", f"    {tgt} <<= {e}", "else:", f"    {tgt} <<= {rx(o['e2'])}"]
             else:
                 body.append(f"{tgt} <<= {e} if {rx(o['c'])} else {rx(o['e2'])}")
@@ -312,7 +313,7 @@ def render(case):
         elif shape == "local":
             if o.get("lq") == "Variable":
                 body += [f"loc{i} = Variable[{t}]({e})", f"{tgt} <<= loc{i}"]
-            elif o["ctx"] == "seq":
+            elif o["ctx"] != "conc":
                 body += [f"loc{i} = Signal[{t}]({e})", f"{tgt} <<= loc{i}"]
             else:
                 pre.append(f"loc{i} = Signal[{t}]()")
@@ -347,6 +348,12 @@ def render(case):
         w("        @std.sequential(std.Clock(self.clk))")
         w("        def proc():")
         for ln in seq:
+            w("            " + ln)
+    if comb:
+        # sequential context without trigger: process whose sensitivity list is inferred from the signals it reads
+        w("        @std.sequential")
+        w("        def comb():")
+        for ln in comb:
             w("            " + ln)
     return "\n".join(L) + "\n", "Top", {}
 
